@@ -6,6 +6,95 @@ import z3
 import mir
 import mprop
 
+def _bb_timestamp(p, leaf):
+    """is `leaf` the result of DateTime::timestamp applied to a FallbackTime::best_before result on this path?"""
+    bb = {e.dest.get(()).id for e in p.events if e.kind == "call" and re.search(r"FallbackTime::best_before$", e.name)
+          and isinstance(e.dest.get(()), mir.Opq)}
+    for e in p.events:
+        if e.kind == "call" and re.search(r"DateTime.*::timestamp$", e.name) and e.args:
+            d = e.dest.get(())
+            if d is not None and mir.is_z(d) and mir.is_z(leaf) and d.eq(leaf):
+                a = e.args[0].get(())
+                src = p.mem.get(a.loc) if isinstance(a, mir.Ref) else a
+                return isinstance(src, mir.Opq) and src.id in bb
+    return False
+
+
+def check_refresh(res, E):
+    """'current copy' means: the last successful update is younger than the fallback time. It is stored as
+    best_before_ts, so every successful update must store a best-before freshly derived from the fallback time."""
+    import nativetest
+    sf = mir.struct_fields("RepositoryState", "src/collector/rrdp/archive.rs")
+    ibb = sf.index("best_before_ts")
+    n = 0
+    bad = []
+    # (1) not_modified: with a local copy, touch + update_state of the touched state, whatever the state holds
+    body = E.prog.find("src/collector/rrdp/base.rs", "RepositoryUpdate", "not_modified")
+    cur = z3.Int("in_current_disc")
+    E.solver.add(z3.And(cur >= 0, cur <= 1))
+    for i, p in enumerate(E.explore(body, max_visits=2, nomut=[r"."], arg_values={"_2": {("disc",): cur}})):
+        if p.kind != "return":
+            continue
+        n += 1
+        if not E.feasible(p.cond, cur == 1):
+            continue
+        touch = [x for x, e in enumerate(p.events) if e.kind == "call" and re.search(r"RepositoryState::touch$", e.name)]
+        upd = [x for x, e in enumerate(p.events) if e.kind == "call" and re.search(r"RrdpArchive::update_state$", e.name)]
+        ok = bool(touch) and any(u > touch[0] and isinstance(p.events[u].args[1].get(()), mir.Ref)
+                                 and isinstance(p.events[touch[0]].args[0].get(()), mir.Ref)
+                                 and p.events[u].args[1].get(()).loc == p.events[touch[0]].args[0].get(()).loc for u in upd)
+        if not ok:
+            bad.append(("not-modified-without-refresh", "RepositoryUpdate::not_modified returns with a local copy whose best-before was not refreshed "
+                        "and written back (touch events %d, update_state events %d)" % (len(touch), len(upd)), p, "not_modified_%d" % i))
+    # (2) touch and to_repository_state derive best_before_ts from FallbackTime::best_before
+    body = E.prog.find("src/collector/rrdp/archive.rs", "RepositoryState", "touch")
+    selfp = mir.Opq("&mut RepositoryState", "self")
+    for i, p in enumerate(E.explore(body, max_visits=2, nomut=[r"."], arg_values={"_1": {(): selfp}})):
+        if p.kind != "return":
+            continue
+        n += 1
+        v = p.mem.get((("o", selfp.id), "deref", ("f", ibb)))
+        if v is None or not _bb_timestamp(p, v):
+            bad.append(("touch-not-from-fallback", "RepositoryState::touch leaves best_before_ts = %r, not FallbackTime::best_before().timestamp()" % (v,), p, "touch_%d" % i))
+    body = E.prog.find("src/collector/rrdp/update.rs", "Notification", "to_repository_state")
+    for i, p in enumerate(E.explore(body, max_visits=2, nomut=[r"."])):
+        if p.kind != "return":
+            continue
+        n += 1
+        v = p.ret.get((("f", ibb),))
+        if v is None or not _bb_timestamp(p, v):
+            bad.append(("new-state-not-from-fallback", "Notification::to_repository_state sets best_before_ts = %r, not FallbackTime::best_before().timestamp()" % (v,), p, "to_state_%d" % i))
+    # (3) a completed delta update stores a state made by to_repository_state
+    body = E.prog.find("src/collector/rrdp/base.rs", "RepositoryUpdate", "delta_update")
+    for i, p in enumerate(E.explore(body, max_visits=2, nomut=[r"."], max_paths=4000)):
+        if p.kind != "return":
+            continue
+        d, od = p.ret.get(("disc",)), p.ret.get((("v", "Ok"), ("f", 0), "disc"))
+        if d is None or od is None or not E.feasible(p.cond, z3.And(d == 0, od == 0)):
+            continue
+        n += 1
+        made = {e.dest.get(()).id for e in p.events if e.kind == "call" and re.search(r"to_repository_state$", e.name) and isinstance(e.dest.get(()), mir.Opq)}
+        stored = False
+        for e in p.events:
+            if e.kind == "call" and re.search(r"RrdpArchive::update_state$", e.name) and len(e.args) > 1:
+                a = e.args[1].get(())
+                src = p.mem.get(a.loc) if isinstance(a, mir.Ref) else a
+                stored = stored or (isinstance(src, mir.Opq) and src.id in made) or bool(made and isinstance(a, mir.Ref))
+        if not stored:
+            bad.append(("delta-update-without-new-state", "delta_update reports success without storing the state of the new notification", p, "delta_%d" % i))
+    res.functions.append("routinator::collector::rrdp::{RepositoryUpdate::not_modified, RepositoryUpdate::delta_update, RepositoryState::touch, Notification::to_repository_state} (MIR)")
+    res.distinct += n
+    res.samples.append({"refresh_obligations_checked": n, "failed": [b[0] for b in bad]})
+    if bad:
+        failed, passed, out = nativetest.run_native_test("native_c29", "c29_native_not_modified_refreshes_best_before")
+        res.evaluations += 1
+        for key, what, p, tag in bad:
+            fn = mprop.write_cex(res, tag, p, E, what + "\n\nnative replay (not_modified on expired / about-to-expire / fresh copies):\n" + out[-2500:])
+            if failed or not key.startswith("not-modified"):
+                res.violation("mir:refresh:" + key, what + "; a later failed update then sees an expired copy (Stale, falls back to rsync) although the copy is current", fn)
+            else:
+                res.inconclusive.append("refresh obligation %s failed symbolically but the native replay passed" % key)
+
 
 def run(res, tier):
     E = mprop.engine(res)
@@ -169,6 +258,7 @@ def run(res, tier):
     for nm in LR:
         if not cls.get(nm):
             res.inconclusive.append("vacuity: try_update never yields %s" % nm)
+    check_refresh(res, E)
     res.bounds.append("all paths of Run::repository and RepositoryUpdate::try_update (loop-free); the six inputs "
                       "(rpkiNotify present, RRDP enabled, rsync enabled, policy, load Ok/Err, load result) are "
                       "symbolic integers: the full product is decided by z3 per path, not enumerated")
